@@ -760,7 +760,7 @@ func c20CleanName(r *rand.Rand, maxSegs int) string {
 }
 
 func c20Value(r *rand.Rand, tid int, isJSON bool) []byte {
-	if isJSON && r.IntN(4) != 0 {
+	if isJSON && r.IntN(6) != 0 {
 		var pool []string
 		switch tid {
 		case 0:
@@ -786,7 +786,7 @@ func c20Value(r *rand.Rand, tid int, isJSON bool) []byte {
 		}
 		return []byte(pool[r.IntN(len(pool))])
 	}
-	switch r.IntN(10) {
+	switch r.IntN(14) {
 	case 0:
 		return []byte{}
 	case 1:
@@ -937,13 +937,13 @@ func c20Generate(r *rand.Rand) c20Input {
 	}
 	walk(in.Fields)
 	for _, full := range order {
-		if in.Mode == "apply" && r.IntN(100) < 12 {
+		if in.Mode == "apply" && r.IntN(100) < 8 {
 			continue // the service does not have it
 		}
 		w := wants[full]
 		v := c20Value(r, w.tid, w.json)
 		in.Svc = append(in.Svc, c20Secret{Name: full, Value: v, Text: fmt.Sprintf("%q", v)})
-		if in.Mode == "apply" && r.IntN(2) == 0 {
+		if in.Mode == "apply" && (r.IntN(2) == 0 || (!in.Allow && r.IntN(10) < 8)) {
 			in.Declared = append(in.Declared, full)
 		}
 	}
